@@ -111,6 +111,8 @@ def value_ok(value):
     newline-free text (a superset of the rule's language, by VC2)"""
     if ERROR_RULE:
         return True  # error rules must raise LexError whatever the text
+    if ANYTEXT:
+        return True  # superset mode: only a confirmation counts (a failure may lie outside the rule's language)
     if MAY_NEWLINE:
         return rule_re().fullmatch(value) is not None
     return "\n" not in value
@@ -123,6 +125,33 @@ def h_rulefn(value: str, lineno: int, offset: int) -> bool:
     pre: value_ok(value)
     post: _
     """
+    return _rulefn_body(value, lineno, offset)
+
+
+class _OpaqueText:
+    """an arbitrary token text by parametricity: it can be formatted, nothing else"""
+
+    def __str__(self):
+        return "<text>"
+
+    __repr__ = __str__
+
+    def __format__(self, spec):
+        return "<text>"
+
+
+def h_rulefn_opaque(lineno: int, offset: int) -> bool:
+    """
+    pre: lineno >= 1
+    post: _
+    """
+    return _rulefn_body(_OpaqueText(), lineno, offset)
+
+
+ANYTEXT = False
+
+
+def _rulefn_body(value, lineno, offset):
     from cxxheaderparser.lexer import PlyLexer, LexError
 
     with NoTracing():
@@ -455,18 +484,34 @@ def run(tier):
                 minw = sp.parse(obj if isinstance(obj, str) else obj.regex, _re.VERBOSE).getwidth()[0]
             except Exception:
                 minw = 1
-            g = dict(RULE=nm, MAY_NEWLINE=may_nl[nm], ERROR_RULE=(rule_kinds.get(nm, ("", None))[0] == "error"), MAXLEN=max(5 if tier == "quick" else 7, min(minw + 3, 14)))
-            futs.append((nm, pool.submit(chrun._work, __name__, "h_rulefn", (), 25.0 if tier == "quick" else 150.0, 10.0, g)))
+            is_err = rule_kinds.get(nm, ("", None))[0] == "error"
+            g = dict(RULE=nm, MAY_NEWLINE=may_nl[nm], ERROR_RULE=is_err, MAXLEN=max(5 if tier == "quick" else 7, min(minw + 3, 14)), ANYTEXT=False, TWIN=False)
+            tmo = 40.0 if tier == "quick" else 200.0
+            alt = None
+            if is_err:
+                alt = pool.submit(chrun._work, __name__, "h_rulefn_opaque", (), tmo, 10.0, g)
+            elif may_nl[nm]:
+                alt = pool.submit(chrun._work, __name__, "h_rulefn", (), tmo, 10.0, dict(g, ANYTEXT=True))
+            futs.append((nm, pool.submit(chrun._work, __name__, "h_rulefn", (), tmo, 10.0, g), alt))
         tw = pool.submit(chrun._work, __name__, "h_rulefn", (), 30.0, 10.0, dict(RULE="t_NEWLINE", MAY_NEWLINE=True, ERROR_RULE=False, TWIN=True))
         conf = 0
         paths = 0
-        for nm, f in futs:
+        by_alt = []
+        for nm, f, alt in futs:
             r = f.result()
             paths += r["paths"]
             ck.add_queries("crosshair-z3", r["z3_checks"], r["z3_s"])
             states = [s_ for s_, _ in r["msgs"]]
+            ra = alt.result() if alt is not None else None
+            if ra is not None:
+                paths += ra["paths"]
+                ck.add_queries("crosshair-z3", ra["z3_checks"], ra["z3_s"])
             if "CONFIRMED" in states:
                 conf += 1
+            elif ra is not None and "CONFIRMED" in [s_ for s_, _ in ra["msgs"]] and not any(s_ in ("POST_FAIL", "POST_ERR", "EXEC_ERR") for s_ in states):
+                # confirmed for a superset of the rule's texts (any text / an opaque text that can only be formatted)
+                conf += 1
+                by_alt.append(nm)
             elif any(s_ in ("POST_FAIL", "POST_ERR", "EXEC_ERR") for s_ in states):
                 msg = next(m for s_, m in r["msgs"] if s_ in ("POST_FAIL", "POST_ERR", "EXEC_ERR"))
                 bad_rules.append((nm, msg))
@@ -479,7 +524,7 @@ def run(tier):
             raise HarnessError(f"rule-function harness is vacuous: twin gave {r['msgs']}")
         ck.sub("rule functions: same token/text, lineno += #newlines (all texts <= 6 chars, all line numbers)", "E-CH",
                "confirmed" if not bad_rules and conf == len(futs) else ("flagged" if bad_rules else "inconclusive"),
-               rules=len(futs), confirmed=conf, paths=paths)
+               rules=len(futs), confirmed=conf, paths=paths, confirmed_over_a_superset_of_texts=by_alt)
         for nm, msg in bad_rules:
             ce = chrun.parse_counterexample(msg)
             _rulefn_violation(ck, nm, ce, msg, may_nl[nm])
